@@ -50,7 +50,10 @@ impl Check for C14 {
         net["pipe"] = json!({"capacity": 1 << 20, "rcut_ppm": *g.pick(&[0u64, 300_000]), "wcut_ppm": 0, "one_byte_ppm": 0, "pend_ppm": 0, "lat": [0, 0]});
         // one-way delay: from 1 ms up to 0.45 x timeout (so that an answer always arrives in time)
         let dmax = tout * 450_000;
-        let delay_us = match g.range(0, 3) {
+        let delay_us = match g.range(0, 4) {
+            // answers that are practically instantaneous (they can overtake the completion of the write
+            // that carried the request when the transport's flush is slow)
+            4 => *g.pick(&[0u64, 100]),
             0 => 1_000,
             1 => dmax,
             2 => g.range(1_000, dmax),
@@ -64,6 +67,7 @@ impl Check for C14 {
             "traffic": g.chance(50), "traffic_gap_ms": *g.pick(&[50u64, 900, 7_000]), "traffic_len": *g.pick(&[1u64, 500, 9_000]),
             "peer_traffic": g.chance(40),
             "waiters": g.chance(70),
+            "flush_delay_us": *g.pick(&[0u64, 0, 300, 20_000, 200_000]),
         })
     }
     fn horizon(&self, _p: &Value) -> Duration {
@@ -83,7 +87,11 @@ impl Check for C14 {
             let stalled = plan["stalled"].as_bool().unwrap_or(false);
             let rel = if tout < interval { "timeout<interval" } else if tout == interval { "timeout=interval" } else { "timeout>interval" };
             let base = crate::sim::pipe_cfg_from(&plan["net"]["pipe"]).unwrap_or_default();
-            let cfg = PipeCfg { latency_us: (d, d), capacity: 1 << 40, ..base };
+            // a slow flush must stay well below the timeout, otherwise the request itself is late
+            // (the monitor's deadline runs from before it queues for the writer, so the round trip plus the
+            // local flush delays — its own and one in front of it — must fit 90 % of the timeout)
+            let fd = std::cmp::min(plan["flush_delay_us"].as_u64().unwrap_or(0), (tout * 900_000).saturating_sub(2 * d) / 4);
+            let cfg = PipeCfg { latency_us: (d, d), capacity: 1 << 40, flush_delay_us: fd, ..base };
             let (w_c2s, mut r_c2s, c_c2s) = pipe(cfg.clone());
             let (mut w_s2c, r_s2c, _c_s2c) = pipe(PipeCfg { capacity: 1 << 40, ..cfg });
             let hb = SessionHeartbeatConfig { interval: Duration::from_secs(interval), timeout: Duration::from_secs(tout) };
